@@ -12,6 +12,20 @@ fn main() {
     if args.is_empty() {
         usage();
     }
+    if args[0] == "seeds" {
+        // pckb-check seeds <dir>: write the fuzz seed corpora
+        let dir = std::path::PathBuf::from(args.get(1).cloned().unwrap_or_else(|| usage()));
+        let n = pckb_verif::fuzz_api::write_seeds(&dir).expect("cannot write seeds");
+        println!("{} seed files written under {}", n, dir.display());
+        return;
+    }
+    if args[0] == "fuzz-targets" {
+        // pckb-check fuzz-targets <ID>: which fuzz targets serve this property
+        for t in pckb_verif::fuzz_api::targets_for(&args.get(1).cloned().unwrap_or_default().to_uppercase()) {
+            println!("{}", t);
+        }
+        return;
+    }
     let id = args[0].to_uppercase();
     if !checks::ALL_IDS.contains(&id.as_str()) {
         usage();
@@ -21,6 +35,7 @@ fn main() {
         _ => Tier::Quick,
     };
     let mut replay: Option<String> = None;
+    let mut fuzz_stats: Option<String> = None;
     let mut i = 1;
     while i < args.len() {
         match args[i].as_str() {
@@ -31,6 +46,10 @@ fn main() {
                     Some("thorough") => Tier::Thorough,
                     _ => usage(),
                 };
+            }
+            "--fuzz-stats" => {
+                i += 1;
+                fuzz_stats = Some(args.get(i).cloned().unwrap_or_else(|| usage()));
             }
             "--replay" => {
                 i += 1;
@@ -84,5 +103,58 @@ fn main() {
         exit(2);
     }
     run.extra.insert("regression_replays_run".into(), serde_json::json!(regress));
+    if let Some(dir) = fuzz_stats {
+        ingest_fuzz(&mut run, &id, std::path::Path::new(&dir));
+    }
     exit(run.finish());
+}
+
+/// Coverage-guided campaigns (thorough tier): statistics go into the evidence; every artifact
+/// is minimised against the same oracle and re-evaluated by the strict evaluators, so a
+/// fuzzer-found violation is reported exactly like any other, with a replay file.
+fn ingest_fuzz(run: &mut Run, id: &str, dir: &std::path::Path) {
+    use pckb_verif::fuzz_api;
+    let mut files: Vec<_> = std::fs::read_dir(dir).map(|rd| rd.flatten().map(|e| e.path()).collect()).unwrap_or_default();
+    files.sort();
+    for f in files {
+        if f.extension().map(|x| x == "json").unwrap_or(false) {
+            let Ok(txt) = std::fs::read_to_string(&f) else { continue };
+            let Ok(v) = serde_json::from_str::<serde_json::Value>(&txt) else { continue };
+            let target = v["target"].as_str().unwrap_or("").to_string();
+            let execs = v["execs"].as_u64().unwrap_or(0);
+            run.eval(execs);
+            // fuzz executions are not individually fingerprinted: counted conservatively as
+            // one non-trivial case per corpus entry that libFuzzer kept (new coverage)
+            run.nontrivial_enum(v["corpus_units"].as_u64().unwrap_or(0));
+            let mut arts = Vec::new();
+            if let Some(a) = v["artifacts"].as_array() {
+                for p in a.iter().filter_map(|x| x.as_str()) {
+                    if let Ok(data) = std::fs::read(p) {
+                        let min = fuzz_api::minimize(&target, id, &data);
+                        arts.push(serde_json::json!({"artifact": p, "bytes": data.len(), "minimised_bytes": min.len()}));
+                        if let Some(case) = fuzz_api::decode_case(&target, id, &min) {
+                            checks::replay_case(id, run, &case);
+                        }
+                    }
+                }
+            }
+            let mut part = v.clone();
+            part["artifacts_processed"] = serde_json::json!(arts);
+            run.part(&format!("libfuzzer:{}", target), part);
+            if v["job"].as_u64() == Some(1) {
+                if let Some(cd) = v["corpus_dir"].as_str() {
+                    let mut entries: Vec<_> = std::fs::read_dir(cd).map(|rd| rd.flatten().map(|e| e.path()).collect()).unwrap_or_default();
+                    entries.sort();
+                    if let Some(pth) = entries.iter().rev().find(|p| std::fs::metadata(p).map(|m| m.len() > 12 && m.len() < 120).unwrap_or(false)) {
+                        if let Ok(data) = std::fs::read(pth) {
+                            if let Some(case) = fuzz_api::decode_case(&target, id, &data) {
+                                let t = target.clone();
+                                run.sample(|| serde_json::json!({"layer":"libfuzzer corpus entry","target":t,"decoded_case":case}));
+                            }
+                        }
+                    }
+                }
+            }
+        }
+    }
 }
